@@ -38,10 +38,11 @@ EXC_NAME = re.compile(r"(Error|Exception|Exists|Mismatch|Contention|Broken|NotHe
 
 
 class Obl:
-    __slots__ = ("name", "kind", "line", "pc", "goal", "target", "info")
+    __slots__ = ("name", "kind", "line", "pc", "goal", "target", "info", "trace")
 
-    def __init__(self, name, kind, line, pc, goal, target, info=None):
+    def __init__(self, name, kind, line, pc, goal, target, info=None, trace=()):
         self.name, self.kind, self.line, self.pc, self.goal, self.target, self.info = name, kind, line, pc, goal, target, info
+        self.trace = trace
 
 
 class Out:
@@ -152,7 +153,7 @@ class Core:
         k = self.counter.get(base, 0)
         self.counter[base] = k + 1
         name = base if k == 0 else "%s#%d" % (base, k)
-        self.obls.append(Obl(name, kind, line, list(st.pc), goal.t, self.target.ref, info))
+        self.obls.append(Obl(name, kind, line, list(st.pc), goal.t, self.target.ref, info, st.trace))
 
     _quant_cache = {}
 
